@@ -96,7 +96,25 @@ def render_src(e, t):
         finally:
             expr.SUBST.clear()
         L.append("            self.ov <<= c0")
+    lp = local_port(e)
+    if lp:
+        # one vector operand is copied into a Signal constructed INSIDE the process; every use of the operand (whole, sliced,
+        # indexed, cast) then goes through that local object and must see the value given to it in this activation
+        L.insert(L.index(f"    oq = Port.output({ot})") + 1, f"    ox = Port.output({ot})")
+        L += ["        @std.sequential(std.Clock(self.clk))", "        def localsig():", f"            x = Signal[{expr.tstr(ports[lp])}](self.{lp})"]
+        try:
+            for nd in expr.port_nodes(e, lp):
+                expr.SUBST[id(nd)] = "x"
+            L.append(f"            self.ox <<= {expr.r(e)}")
+        finally:
+            expr.SUBST.clear()
     return "\n".join(L) + "\n"
+
+
+def local_port(e):
+    ports = expr.ports_used(e)
+    cands = sorted(n for n, t in ports.items() if t[0] in ("U", "S", "BV") and t[1] >= 2)
+    return cands[0] if cands else None
 
 
 def valuations(rs, ports):
@@ -135,6 +153,8 @@ def simulate(e, t, design, seed, idx):
     chains = expr.slice_chains(e)
     if chains:
         outs = outs + ("onv",)
+    if local_port(e):
+        outs = outs + ("ox",)
     for k, env in enumerate(vals):
         want = expr.ev(e, env)
         d.clock(env)
@@ -143,7 +163,7 @@ def simulate(e, t, design, seed, idx):
         for which in outs:
             got = d.get(which)
             if got != want:
-                return "wrong-value", {"output": {"oc": "concurrent", "oq": "clocked", "ol": "clocked, run-time-indexed elements bound before their index variable changes", "onv": "clocked, slice-of-slice view bound to a name and used next to its cast"}[which], "step": k, "operands": env, "expected": want, "got": got}, len(vals), exhaustive
+                return "wrong-value", {"output": {"oc": "concurrent", "oq": "clocked", "ol": "clocked, run-time-indexed elements bound before their index variable changes", "ox": "clocked, one operand read through a Signal constructed inside the process", "onv": "clocked, slice-of-slice view bound to a name and used next to its cast"}[which], "step": k, "operands": env, "expected": want, "got": got}, len(vals), exhaustive
         d.half()
         if d.get("oc") != want:
             return "wrong-value", {"output": "concurrent", "step": k, "phase": "inactive-edge", "operands": env, "expected": want, "got": d.get("oc")}, len(vals), exhaustive
